@@ -20,6 +20,8 @@ ap.add_argument('--checks', required=True)
 ap.add_argument('--tier', default='quick')
 ap.add_argument('--demo-timeout', type=int, default=1500)
 ap.add_argument('--skip-confirm', action='store_true', help='only run the checks (confirmation already recorded)')
+ap.add_argument('--demo-args', default='', help='arguments passed to the demonstration program')
+ap.add_argument('--confirm-only', action='store_true', help='only (re)do the confirmation, keep recorded check results')
 ap.add_argument('--append-to', help='with --test-name: append demo.rs to this source file instead of applying demo.diff')
 ap.add_argument('--test-name', help='the demonstration is an in-crate #[test] added by demo.diff: name of the test')
 a = ap.parse_args()
@@ -31,7 +33,7 @@ repo = f'{work}/repo'
 shutil.rmtree(work, ignore_errors=True)
 os.makedirs(work)
 subprocess.check_call(['rsync', '-a', '--exclude', 'target', '--exclude', '.git', '/repo/', repo + '/'])
-env = dict(os.environ, CARGO_NET_OFFLINE='true', CARGO_TARGET_DIR=f'{base}/target-demo')
+env = dict(os.environ, CARGO_NET_OFFLINE='true', CARGO_TARGET_DIR=f'{work}/target-demo')  # private: a shared target dir reused stale artifacts across copies
 name = f'{a.id}-{a.change}'
 out = os.path.join(here, 'seeded', name)
 os.makedirs(out, exist_ok=True)
@@ -51,10 +53,10 @@ for f in ['patch.diff', 'demo.rs', 'RUN.txt', 'NOTES.md']:
     if os.path.exists(os.path.join(a.src, f)):
         shutil.copy(os.path.join(a.src, f), os.path.join(out, f))
 
-demo = ['cargo', 'run', '--release', '--offline', '--example', 'seed_demo']
+demo = ['cargo', 'run', '--release', '--offline', '--example', 'seed_demo'] + (['--'] + a.demo_args.split() if a.demo_args else [])
 if a.test_name:
     demo = ['cargo', 'test', '--offline', a.test_name]
-    env = dict(env, CARGO_TARGET_DIR=f'{base}/target-tests')
+    env = dict(env, CARGO_TARGET_DIR=f'{work}/target-tests')
     if os.path.exists(os.path.join(a.src, 'demo.diff')):
         shutil.copy(os.path.join(a.src, 'demo.diff'), os.path.join(out, 'demo.diff'))
 if not a.skip_confirm and a.test_name and a.append_to:
@@ -68,6 +70,7 @@ if not a.skip_confirm:
     rc0, so, se, dt = run(demo, a.demo_timeout, cwd=repo, env=env)
     print(f'SEED {name}: demo on unchanged copy -> exit {rc0} ({dt:.0f}s)')
     meta['demo_unchanged_exit'] = rc0
+    meta['demo_args'] = a.demo_args
     meta['demo_unchanged_tail'] = (so + se)[-600:]
 subprocess.check_call(['patch', '-p1', '-s', '--no-backup-if-mismatch', '-d', repo, '-i', os.path.join(a.src, 'patch.diff')])
 if not a.skip_confirm:
@@ -83,7 +86,7 @@ if not a.skip_confirm:
         open(os.path.join(repo, a.append_to), 'w').write(t[:-len(appended)])
     else:
         subprocess.check_call(['patch', '-R', '-p1', '-s', '--no-backup-if-mismatch', '-d', repo, '-i', os.path.join(a.src, 'demo.diff')])
-    rct, so, se, dt = run(['cargo', 'test', '--offline'], 3000, cwd=repo, env=dict(env, CARGO_TARGET_DIR=f'{base}/target-tests'))
+    rct, so, se, dt = run(['cargo', 'test', '--offline'], 3000, cwd=repo, env=dict(env, CARGO_TARGET_DIR=f'{work}/target-tests'))
     res = [l for l in so.splitlines() if l.startswith('test result')]
     print(f'SEED {name}: cargo test on changed copy -> exit {rct} {res[:1]} ({dt:.0f}s)')
     meta['tests_exit'] = rct
@@ -92,7 +95,7 @@ if not a.skip_confirm:
 
 cenv = dict(os.environ, YQV_REPO=repo, YQV_TARGET=f'{base}/target', YQV_SCRATCH=f'{work}/out', CARGO_NET_OFFLINE='true')
 checks = meta.get('checks', {})
-for cid in [c for c in a.checks.split(',') if c]:
+for cid in [c for c in a.checks.split(',') if c and not a.confirm_only]:
     rc, so, se, dt = run([os.path.join(here, 'check'), cid, a.tier], 7200, env=cenv)
     lines = [l for l in so.splitlines() if l.startswith(('VIOLATION', 'KNOWN-FINDING', 'RESULT', 'INCONCLUSIVE', 'BUILD'))]
     verdict = {0: 'missed', 1: 'caught', 2: 'inconclusive', 3: 'selfcheck'}.get(rc, f'exit {rc}')
